@@ -157,4 +157,18 @@ theorem code_parameter_loop_bounded (E : Mimic.Py.Env (List Char)) (caps cs : Na
                 omega
               · simp at htake
 
+/-- **`parse_handshake_response` of `packets.py`, translated, is the model's `parseHandshakeResponse`** for every server
+    capability set, every collation table, every codec and every byte string: capability intersection, the SSL-request
+    short form, user name, both layouts of the auth response, the optional database / plugin / connect attributes / zstd
+    level. (The model's `HsParse.error` is "the Python code raises".) -/
+theorem handshake_parser_is_code (E : Mimic.Py.Env Bytes) (caps : Nat) (data : Bytes) :
+    MimicProofs.ParsersCode.toHs (Mimic.Extracted.ParsersCode.parse_handshake_response E caps data)
+      = parseHandshakeResponse caps E.collation E.decode data :=
+  MimicProofs.ParsersCode.parse_handshake_response_eq E caps data
+
+/-- the translated `_read_connect_attrs` (its `while` loop and the Python dict it fills) is the model's `connectAttrs` -/
+theorem connect_attrs_is_code (E : Mimic.Py.Env Bytes) (cs : Nat) (r : Bytes) :
+    Mimic.Extracted.ParsersCode.read_connect_attrs E r cs = connectAttrs (E.decode cs) r :=
+  MimicProofs.ParsersCode.read_connect_attrs_eq E cs r
+
 end MimicProps.C07
